@@ -15,6 +15,9 @@ class TreeObserver:
         self.pending = None
         self.tm = model.TreeModel(scn["anns"])
         self.feature_fn = feature_fn
+        # open-loop fallback (used only when the white-box memo cannot be read, e.g. after an internal refactoring): the model
+        # carries its own context per block instead of being re-synchronised from the observed one
+        self.fb_stack = []
 
     def _args(self, run):
         for f in reversed(run.frames):
@@ -31,12 +34,27 @@ class TreeObserver:
         return snap, ctx
 
     def pre(self, interp, run, op, path):
+        if op["op"] in ("ctx", "call"):
+            self.fb_stack.append({"ctx": model.Ctx(args={}), "certain": True})
+            return
         if op["op"] not in ("tree", "arr"):
             return
         if op["op"] == "tree" and not run.frames:
             return  # the PyTree properties are stated for checks inside a checking context
+        self.fallback = False
         with seams.quiet():
             snap, ctx = self._ctx(run)
+            if not snap.get("wb"):
+                # structure bindings cannot be re-synchronised from print_bindings() text: without the white-box memo the model
+                # runs open loop (its own context per block); a block whose model state became uncertain is no longer judged
+                top = self.fb_stack[-1] if self.fb_stack else None
+                if top is None or not top["certain"]:
+                    self.stats.inc("unjudged_white_box_unavailable")
+                    return
+                self.stats.inc("judged_open_loop_without_white_box")
+                self.fallback = True
+                ctx = top["ctx"].copy()
+                ctx.args = self._args(run)
             spec = self.scn["anns"][op["ann"]]
             if spec["k"] == "arr":
                 outs, post = model.match_array(spec, op["val"], ctx)
@@ -47,13 +65,24 @@ class TreeObserver:
             self.pending = (snap, outs, post, bool(run.frames), len(seams.state().fired))
 
     def post(self, interp, run, op, path, out):
+        if op["op"] in ("ctx", "call"):
+            if self.fb_stack:
+                self.fb_stack.pop()
+            return
         if op["op"] not in ("tree", "arr") or self.pending is None:
             return
         snap0, outs, post, in_ctx, fired0 = self.pending
         self.pending = None
         if len(seams.state().fired) != fired0:
             self.stats.inc("ops_with_fault_fired")
+            if self.fb_stack:
+                self.fb_stack[-1]["certain"] = False
             return
+        if getattr(self, "fallback", False) and self.fb_stack:
+            if out is True and outs == {"accept"} and post is not None:
+                self.fb_stack[-1]["ctx"] = post
+            elif out is True or len(outs) > 1:
+                self.fb_stack[-1]["certain"] = False
         spec = self.scn["anns"][op["ann"]]
         got = "accept" if out is True else "reject" if out is False else (
             "AnnotationError" if out.get("exc") == "AnnotationError" else "exc")
